@@ -14,6 +14,13 @@ pub(super) fn make_text(content: &str) -> BytesText<'static> {
     BytesText::from_escaped(escaped)
 }
 
+/// Finds a character which is out of the XML 1.0 `Char` range.
+pub(super) fn find_non_xml_char(s: &str) -> Option<char> {
+    s.chars().find(|&c| {
+        !matches!(c, '\t' | '\n' | '\r' | '\u{20}'..='\u{d7ff}' | '\u{e000}'..='\u{fffd}' | '\u{10000}'..)
+    })
+}
+
 /// Pushes attribute which value will be read back verbatim.
 ///
 /// Literal white space characters but space would be normalized to a space by XML parser,
